@@ -109,18 +109,34 @@ Emit ==
                /\ left' = left - 1 /\ mj' = mj /\ phase' = phase
     /\ UNCHANGED <<cfg, jds, stubs, kk, ncalls>>
 
+(* crash point: the build callback of the next motif raises instead of returning (a user callback is arbitrary
+   code); the exception leaves random_clustered_graph, the partial result is lost and the caller keeps the
+   generator object.  Nothing else happens: in particular no column, counter or stub list of the aborted call
+   may be visible to the next call (GenerateAgain starts from "aborted" exactly as from "done").
+   AbortLeaks names the deviations "the aborted call's state survives", refuted in
+   MC_StubMatching_abortleak.cfg (C01_Count) and MC_StubMatching_abortleak_cols.cfg (C02_IdsPartitionCalls). *)
+AbortLeaks == "none"      \* "all": callback log, columns and counter survive; "columns": the edge list columns and the counter only
+Abort ==
+    /\ phase = "emit" /\ left > 0 /\ ncalls < MaxCalls
+    /\ phase' = "aborted"
+    /\ UNCHANGED <<cfg, jds, stubs, kk, parts, mj, left, calls, edgeCol, topCol, midCol, nextId, ncalls>>
+
 (* history: the same generator object is asked for another graph; nothing of the previous call survives
-   (fresh stub lists, fresh id counter, fresh columns) *)
+   (fresh stub lists, fresh id counter, fresh columns) - whether that call returned or was aborted *)
 GenerateAgain ==
-    /\ phase = "done" /\ ncalls < MaxCalls
+    /\ phase \in {"done", "aborted"} /\ ncalls < MaxCalls
     /\ jds' \in [1..N -> [1..Len(cfg.sizes) -> 0..MaxDeg]]
     /\ Consistent(cfg, jds') /\ OrbitsAgree(cfg, jds')
     /\ stubs' = [k \in 1..Len(cfg.sizes) |-> StubList(jds', k)]
     /\ phase' = "shuffle" /\ kk' = 1 /\ parts' = <<>> /\ mj' = 1 /\ left' = 0
-    /\ calls' = <<>> /\ edgeCol' = <<>> /\ topCol' = <<>> /\ midCol' = <<>> /\ nextId' = 0 /\ ncalls' = ncalls + 1
+    /\ IF AbortLeaks = "all" /\ phase = "aborted" THEN UNCHANGED calls ELSE calls' = <<>>
+    /\ IF AbortLeaks # "none" /\ phase = "aborted"
+       THEN UNCHANGED <<edgeCol, topCol, midCol, nextId>>
+       ELSE edgeCol' = <<>> /\ topCol' = <<>> /\ midCol' = <<>> /\ nextId' = 0
+    /\ ncalls' = ncalls + 1
     /\ UNCHANGED cfg
 
-Next == Shuffle \/ Partition \/ Emit \/ GenerateAgain
+Next == Shuffle \/ Partition \/ Emit \/ Abort \/ GenerateAgain
 Spec == Init /\ [][Next]_vars
 
 (* ------------------------------ properties ------------------------------ *)
